@@ -977,6 +977,99 @@ def coq_app0(snap):
             f"{pairs(snap['units'])} {pairs(snap['prefixes'])} {strs(snap['suffixes'])} {strs(snap['nonmult'])}.\n")
 
 
+# ------------------------------------------------------------------ part D2: another interpreter, another str-hash seed
+def build_spec(reg, spec):
+    """(kind, magnitude, {name: exponent}, scale) -> object attached to `reg` (containers: no registry)"""
+    from pint.util import ParserHelper, UnitsContainer
+    kind, mag, d, scale = spec
+    for n in d:
+        reg.parse_units(n)
+    if kind == "UnitsContainer":
+        return UnitsContainer(d)
+    if kind == "ParserHelper":
+        return ParserHelper(scale, d)
+    if kind == "Unit":
+        return reg.Unit(UnitsContainer(d))
+    if kind == "Measurement":
+        return reg.Measurement(float(mag), 0.25, reg.Unit(UnitsContainer(d)))
+    if kind == "exception":
+        import pint
+        return pint.DimensionalityError(UnitsContainer(d), reg.Unit(UnitsContainer(d)), "a", "b")
+    return reg.Quantity(mag, UnitsContainer(d))
+
+
+def units_of(o):
+    return o._units if hasattr(o, "_units") else o
+
+
+def part_cross_process_hash(R, pools):
+    """objects used the ordinary way (their container hashed) in a process with another PYTHONHASHSEED,
+    pickled there, unpickled here: must equal / hash like / be found in dicts keyed by the local twin"""
+    import base64
+    import pint
+    rng, ck = R.rng, R.ck
+    pool = pools[0]
+    specs = []
+    for i in range(60 if R.thorough else 24):
+        kind = ["Quantity", "Unit", "UnitsContainer", "ParserHelper", "Measurement", "exception"][i % 6]
+        d = {pool.name(rng): rng.choice([1, 2, -1, -2, 3]) for _ in range(rng.randint(1, 3))}
+        specs.append((kind, rng.choice([1, 3, 2.5]), d, 1))
+    tmp = tempfile.mkdtemp(prefix="c18h_")
+    try:
+        jp, op = os.path.join(tmp, "job.pickle"), os.path.join(tmp, "out.json")
+        with open(jp, "wb") as f:
+            pickle.dump({"mode": "produce", "specs": specs}, f)
+        env = dict(os.environ, PYTHONPATH=f"{REPO}:{VERIF}", PYTHONHASHSEED="4242", PYTHONDONTWRITEBYTECODE="1")
+        p = subprocess.run([sys.executable, "-m", "harness.c18_child", jp, op], cwd=str(VERIF), env=env,
+                           stdout=subprocess.PIPE, stderr=subprocess.STDOUT, text=True, timeout=600)
+        if p.returncode != 0 or not os.path.exists(op):
+            ck.broken.append("producer process failed: " + p.stdout[-400:])
+            return
+        with open(op) as f:
+            out = json.load(f)
+    finally:
+        import shutil
+        shutil.rmtree(tmp, ignore_errors=True)
+    app = pint.application_registry.get()
+    for spec, blobs in zip(specs, out["blobs"]):
+        kind = spec[0]
+        exp = build_spec(app, spec)
+        for proto, b64 in enumerate(blobs):
+            rp = {"kind": kind, "units": {k: str(v) for k, v in spec[2].items()}, "magnitude": repr(spec[1]), "protocol": proto,
+                  "how": "container hashed, then pickled, in a process with PYTHONHASHSEED=4242; unpickled with PYTHONHASHSEED="
+                         + os.environ.get("PYTHONHASHSEED", "random")}
+            try:
+                got = pickle.loads(base64.b64decode(b64))
+            except Exception as e:
+                R.oracle(False, f"pickle-roundtrip:{kind}:cross-process:raises", f"unpickling raises {e!r}", rp)
+                continue
+            bad = []
+            pairs = [(units_of(got), units_of(exp))] if kind != "exception" else \
+                [(got.units1, exp.units1), (units_of(got.units2), units_of(exp.units2))]
+            for g, e in pairs:
+                try:
+                    if not (g == e) or not (e == g):
+                        bad.append("eq")
+                    if (getattr(g, "scale", 1) == 1) and hash(g) != hash(e):
+                        bad.append("hash")
+                    if (getattr(g, "scale", 1) == 1) and {e: 1}.get(g) != 1:
+                        bad.append("dict-lookup")
+                except Exception as ex:
+                    bad.append("raises:" + type(ex).__name__)
+            if kind in ("Quantity", "Unit"):
+                try:
+                    if not (got == exp):
+                        bad.append("object-eq")
+                except Exception as ex:
+                    bad.append("raises:" + type(ex).__name__)
+            bad = sorted(set(bad))
+            R.oracle(not bad, f"pickle-roundtrip:{kind}:cross-process:{','.join(bad)}",
+                     f"a {kind} whose units were hashed before pickling in another interpreter (other str-hash seed) is not equal to the "
+                     f"same object built here: fails {bad}", rp)
+            ck.count("cross-process-hash")
+        ck.case(key=("xproc", kind, str(spec[2])), nontrivial=True)
+
+
 # ------------------------------------------------------------------ part E: registry pairs
 PROBE_NAMES = ["meter", "inch", "kiloinch", "microfortnight", "smoot", "kilosmoot", "zorkmeter", "mymeter", "nb0", "degC",
                "foo", "bar", "kilofoo", "furlong", "cm", "µs", "dimensionless", "no_such_unit", "pfxmeter", "spam"]
@@ -1281,6 +1374,68 @@ def part_cross_registry(R):
                                  {"pair": pname, "left": f"{ka}({ua!r})", "right": f"{kb}({ub!r})", "op": oname, "observed": out})
             ck.count("cross-registry:" + pname)
             ck.case(key=("xreg", pname, ua, ub), nontrivial=True)
+    # ---- registry pairs realised through the registry-less classes pint.Quantity / pint.Unit /
+    # pint.Measurement: instances take their registry from the application registry at construction
+    # time, so after set_application_registry() old and new objects share a CLASS but not a registry
+    original = pint.application_registry.get()
+
+    def swap_objs(reg, us, m):
+        pint.set_application_registry(reg)
+        out = {"Quantity": pint.Quantity(m, us), "Unit": pint.Unit(us), "Measurement": pint.Measurement(float(m), 0.5, us)}
+        return out
+    swap_pairs = {"fresh/fresh": (pint.UnitRegistry(cache_folder=None), pint.UnitRegistry(cache_folder=None)),
+                  "lazy-default/fresh": (pint._DEFAULT_REGISTRY, pint.UnitRegistry(cache_folder=None)),
+                  "application/deep-copied": (original, copy.deepcopy(original)),
+                  "fresh/new-lazy": (pint.UnitRegistry(cache_folder=None), pint.LazyRegistry()),
+                  "fresh/fraction": (pint.UnitRegistry(cache_folder=None), pint.UnitRegistry(non_int_type=F, cache_folder=None))}
+    all_ops = dict({k: v[0] for k, v in XOPS.items()}, **XOPS_EXTRA)
+    try:
+        for pname, (ra, rb) in swap_pairs.items():
+            for _ in range(12 if R.thorough else 4):
+                ua, ub = rng.choice(unit_strs), rng.choice(unit_strs)
+                if rng.random() < 0.6:
+                    ub = ua
+                ma, mb = rng.choice([1, 2, 3.5]), rng.choice([1, 2, 3.5])
+                A = swap_objs(ra, ua, ma)
+                A2 = swap_objs(ra, ub, mb)        # twins of B, same registry as A
+                B = swap_objs(rb, ub, mb)
+                same_class = all(type(A[k]) is type(B[k]) for k in A)
+                distinct = all(A[k]._REGISTRY is not B[k]._REGISTRY for k in A)
+                R.oracle(distinct, "cross-registry:app-swap:attachment", "objects built through pint.Quantity/Unit/Measurement before and after "
+                         "set_application_registry() are attached to the same registry", {"pair": pname})
+                if not distinct:
+                    continue
+                ck.count("cross-registry:app-swap:" + pname + (":same-class" if same_class else ""))
+                for ka, x in A.items():
+                    for kb, y in B.items():
+                        for oname, op in all_ops.items():
+                            # in-place operators get a left operand of their own (NOT copy.copy: copying an
+                            # instance of a registry-less class re-attaches it to the current application registry)
+                            xx = swap_objs(ra, ua, ma)[ka] if oname.startswith("i") else x
+                            out = outcome(op, xx, y)
+                            ok = out[0] == "ValueError"
+                            if not ok and out[0] != "returns":
+                                same = outcome(op, swap_objs(ra, ua, ma)[ka] if oname.startswith("i") else x, A2[kb])
+                                ok = same[0] == out[0]
+                            order = oname in ("lt", "le", "gt", "ge")
+                            cat = "order" if order else ("arith" if oname in XOPS else "arith-extended")
+                            R.oracle(ok, f"cross-registry:app-swap:{cat}:{oname}:{ka}:{kb}:{out[0]}",
+                                     f"pint.{ka}({ma if ka != 'Unit' else ''}{',' if ka != 'Unit' else ''}{ua!r}) {oname} pint.{kb}(..{ub!r}) built before / after "
+                                     f"set_application_registry() ({pname}) does not raise ValueError: {out}",
+                                     {"pair": pname, "left": f"{ka}({ua!r})", "right": f"{kb}({ub!r})", "op": oname, "observed": out,
+                                      "how": "left built via pint.<Class> with the first registry as application registry, right after "
+                                             "pint.set_application_registry(second registry)", "app_swap": True})
+                            if oname in XOPS:
+                                xl, xr = coq_obj(x, R.regid(x._REGISTRY)), coq_obj(y, R.regid(y._REGISTRY))
+                                xo = {"ValueError": "XoValueError", "TypeError": "XoTypeError"}.get(out[0], "XoOther")
+                                if xl and xr:
+                                    R.case(f"KXop {coq_bool(unit_order_checked)} {XOPS[oname][1]} {xl} {xr} {xo}",
+                                           {"op": "xop-app-swap", "pair": pname, "left": ka, "right": kb, "opname": oname, "observed": out},
+                                           ("xop-swap", pname, ua, ub, ka, kb, oname))
+                ck.case(key=("xreg-swap", pname, ua, ub), nontrivial=True)
+    finally:
+        pint.set_application_registry(original)
+    R.oracle(pint.application_registry.get() is original, "cross-registry:app-swap:restore", "application registry not restored", {})
     # same registry: the model says "proceeds" (or TypeError for Unit +/- Unit)
     for _ in range(40 if R.thorough else 12):
         ua, ub = rng.choice(unit_strs), rng.choice(unit_strs)
@@ -1351,6 +1506,7 @@ def run(ck):
         part_exceptions(R, pools, rows)
     lap("exceptions")
     snap0, useq_cases = part_subprocess(R, pools, objs)
+    part_cross_process_hash(R, pools)
     lap("fresh subprocesses")
     part_registry_pairs(R)
     lap("registry pairs")
@@ -1415,8 +1571,14 @@ def replay(ck, path):
             return 1
     if data.get("key", "").startswith("cross-registry:") and "op" in rp:
         a, b = pint.UnitRegistry(), pint.UnitRegistry()
-        mk = lambda reg, s: {"Quantity": lambda u: reg.Quantity(2, u), "Unit": reg.Unit,
-                             "Measurement": lambda u: reg.Measurement(2.0, 0.5, u)}[s.split("(")[0]](eval(s.split("(", 1)[1][:-1]))
+        if rp.get("app_swap"):
+            def mk(reg, s):          # through the registry-less classes, application registry switched first
+                pint.set_application_registry(reg)
+                return {"Quantity": lambda u: pint.Quantity(2, u), "Unit": pint.Unit,
+                        "Measurement": lambda u: pint.Measurement(2.0, 0.5, u)}[s.split("(")[0]](eval(s.split("(", 1)[1][:-1]))
+        else:
+            mk = lambda reg, s: {"Quantity": lambda u: reg.Quantity(2, u), "Unit": reg.Unit,
+                                 "Measurement": lambda u: reg.Measurement(2.0, 0.5, u)}[s.split("(")[0]](eval(s.split("(", 1)[1][:-1]))
         op = dict({k: v[0] for k, v in XOPS.items()}, **XOPS_EXTRA)[rp["op"]]
         out = outcome(op, mk(a, rp["left"]), mk(b, rp["right"]))
         print("re-run:", rp["left"], rp["op"], rp["right"], "->", out)
